@@ -75,3 +75,33 @@ def run_instances(run, tag, instances, nontrivial, kind_key="rolling"):
         run.samples = [{"params": mid["params"],
                         "ops": [{k: v for k, v in o.items() if k != "disk"} for o in mid["ops"]]}]
     return all_cases
+
+
+def concurrent_traces(run, tag, trig, limit, runs):
+    """impl -> spec: several real threads append through one appender; the trace (events emitted under the
+    appender's mutex, with the parsed directory) must be a behaviour of Rolling.tla (Trace_Rolling.tla)."""
+    import json
+    d = os.path.join(C.WORK, "cfg")
+    os.makedirs(d, exist_ok=True)
+    cfg = os.path.join(d, "Trace_Rolling_%s_%s_%d.cfg" % (tag, trig, limit))
+    with open(cfg, "w") as f:
+        f.write("CONSTANTS\n  Base = 0\n  Count = 2\n  Roller = \"window\"\n  AppendMode = TRUE\n  ReopenTruncates = FALSE\n")
+        f.write("  Trig = \"%s\"\n  Limit = %d\n  Sizes = {1}\n  PreSizes = {0}\n  MaxRec = 100000\n" % (trig, limit))
+        f.write("  MaxFaults = 0\n  MaxCrash = 0\n  MaxRestart = 0\n  MaxObst = 0\n  Hist = FALSE\n")
+        f.write("SPECIFICATION TSpec\nINVARIANTS GapFreeSuffix NotLessThanIdeal LenExact AtMostOneRoll\n")
+        f.write("CONSTRAINT Track\nPOSTCONDITION Accepted\nCHECK_DEADLOCK FALSE\n")
+    wd = C.workdir("%s_trace_%s_%d" % (tag, trig, limit))
+    tp = os.path.join(wd, "trace.ndjson")
+    p = C.run_harness(["rolltrace", tp, trig, str(limit), str(runs), str(C.seed() + limit)], timeout=1800)
+    summ = json.loads(p.stdout.strip().splitlines()[-1])
+    if summ["start_events"] == 0:
+        raise C.ToolError("instrumentation missing: no rolling.locked hook events recorded")
+    for pr in summ["problems"]:
+        run.mismatch({"kind": pr["what"], "trig": trig}, pr)
+    r = C.validate_trace(run, "Trace_Rolling", cfg, "%s_trace_%s_%d" % (tag, trig, limit), tp, timeout=1800,
+                         key={"part": "concurrent", "trig": trig, "limit": limit}, linear=False)
+    if r:
+        run.states += r.distinct
+        run.transitions += r.generated
+    run.traces += runs
+    return summ
